@@ -5,6 +5,7 @@ one handler.  The implementation is driven through HTTPServer over a fake
 IOStream: request 1 makes the calls, the Set-Cookie lines are read off the wire,
 request 2 (same connection) carries `Cookie: <name=value parts joined by "; ">`
 and the handler's `self.request.cookies` is recorded."""
+import calendar
 import datetime as _dt
 import itertools
 import logging
@@ -19,7 +20,7 @@ PROPERTY_FILE = "C25/Property.v"
 RUN_IMPORTS = "From TV Require Import C25.Model C25.Run."
 RUN_FN = "run_case"
 CHECK_FN = "check_case"
-INPUT_TYPE = "(list op)"
+INPUT_TYPE = "(list op * ending)"
 
 NOW = 1000000.0          # the virtual clock of harness.vclock.run_virtual
 SECRET = "c25-secret"
@@ -27,15 +28,17 @@ FIXED_NOW = _dt.datetime(2026, 1, 2, 3, 4, 5, tzinfo=_dt.timezone.utc)
 
 TRUSTED_BASE = [
     "http.cookies of the running CPython (3.12) is part of the implementation under test; _quote/_Translator, Morsel.set, Morsel.OutputString are modelled by hand",
-    "expiry text (httputil.format_timestamp) and signed values (create_signed_value, property C23) are computed by Tornado and passed to the model as opaque text; the clock (time.time, datetime.now) is pinned by the harness",
+    "signed values (create_signed_value, property C23) are computed by Tornado and passed to the model as opaque text; the clock (time.time, datetime.now) is pinned by the harness; datetime expiries are converted with calendar.timegm in the harness (format_timestamp of an int timestamp is modelled)",
     "the 'browser' that turns a Set-Cookie header into the next request's Cookie header (name=value part up to the first ';', joined by '; ') is the harness's and the model's RFC 6265-style reader",
 ]
 ASSUMPTIONS = [
     "legacy **kwargs of set_cookie (case-insensitive Morsel keys, comment/version) are outside the model; they bypass the attribute check (Domain='x; Secure' injects an attribute) and a CookieError raised there loses an earlier setting of the same name",
-    "argument types: name/value/domain/path/samesite are str (bytes values only through set_signed_cookie), max_age is int, expires is None or an int timestamp; `if expires:` drops expires=0",
-    "theorems about attributes assume the opaque expiry text contains no ';' and only header-safe characters (expires_ok); the checker verifies this on every case through the exact-attributes comparison",
+    "argument types: name/value/domain/path/samesite are str (bytes values only through set_signed_cookie), max_age is int, expires is None or an int timestamp (any sign and size); `if expires:` drops expires=0; the error-class thresholds of an unrepresentable expiry (ValueError / OSError / OverflowError) are those of CPython 3.12 on 64-bit Linux",
+    "scope: set_cookie calls made before the response head is flushed (h_written = false is an explicit hypothesis of C25_any_ending_sends_the_jar); after flush() no header-setting API takes effect, by RequestHandler's general contract",
 ]
-RULE = ("call sequences (1-4 calls, small name pool so names repeat) over an alphabet of legal characters, separators, quotes, "
+RULE = ("one case = call sequence + how the request ends (return, Finish, HTTPError(code), other exception, send_error(code), redirect); "
+        "expiry timestamps at epoch/leap-day/century/year-10000 edges (thorough: four edges of every year 1970-2111); "
+        "call sequences (1-4 calls, small name pool so names repeat) over an alphabet of legal characters, separators, quotes, "
         "backslash, controls, Latin-1 and non-Latin-1 code points; mostly-valid structured calls plus a fully random stream; every single "
         "code point 0..300 in each argument position; thorough: all values of length <= 2 (and attribute texts) over a 15-character alphabet "
         "and all 3-call sequences over a small call menu.  distinct by canonical JSON; non-trivial = at least one call accepted")
@@ -51,35 +54,44 @@ def call(kind="set", name="a", value="v", domain=None, expires=None, path="/", m
             "expires_days": expires_days}
 
 
-def mk(*ops):
-    return {"ops": list(ops)}
+def mk(*ops, end=None):
+    return {"ops": list(ops), "end": list(end) if end else ["return", 0]}
 
 
-def _fmt(ts):
-    from tornado import httputil
-    return httputil.format_timestamp(ts)
+def _ts(dt):
+    return calendar.timegm(dt.utctimetuple())
 
 
 def model_call(op):
-    """The `call` record the model is given for one op (opaque texts computed by Tornado)."""
+    """The `call` record the model is given for one op (signed value computed by Tornado)."""
     kind = op["kind"]
     value = op["value"]
     expires = None
     max_age = op["max_age"]
     if kind == "set":
-        if op["expires"]:
-            expires = _fmt(op["expires"])
+        expires = op["expires"]
     elif kind == "clear":
-        expires = _fmt(FIXED_NOW - _dt.timedelta(days=365))
+        expires = _ts(FIXED_NOW - _dt.timedelta(days=365))
         max_age = None
     else:
         from tornado import web
         value = web.create_signed_value(SECRET, op["name"], op["value"], clock=lambda: NOW).decode("utf-8")
-        max_age = op["max_age"]
         if op["expires_days"] is not None:
-            expires = _fmt(FIXED_NOW + _dt.timedelta(days=op["expires_days"]))
+            expires = _ts(FIXED_NOW + _dt.timedelta(days=op["expires_days"]))
     return {"name": op["name"], "value": value, "domain": op["domain"], "expires": expires, "path": op["path"],
             "max_age": max_age, "httponly": op["httponly"], "secure": op["secure"], "samesite": op["samesite"]}
+
+
+def _expires_text(c):
+    """independent of Tornado and of the model: datetime arithmetic + strftime-free formatting"""
+    t = c["expires"]
+    if not t:
+        return None
+    d = _dt.datetime(1, 1, 1) + _dt.timedelta(seconds=t + 62135596800)
+    return "%s, %02d %s %04d %02d:%02d:%02d GMT" % (
+        ["Mon", "Tue", "Wed", "Thu", "Fri", "Sat", "Sun"][d.weekday()], d.day,
+        ["Jan", "Feb", "Mar", "Apr", "May", "Jun", "Jul", "Aug", "Sep", "Oct", "Nov", "Dec"][d.month - 1],
+        d.year, d.hour, d.minute, d.second)
 
 
 def _gopt(x):
@@ -92,9 +104,31 @@ def coq_input(case):
         c = model_call(op)
         ctor = {"set": "OpSet", "clear": "OpClear", "signed": "OpSigned"}[op["kind"]]
         out.append("%s (mkCall %s %s %s %s %s %s %s %s %s)" % (
-            ctor, G.gbytes(c["name"]), G.gbytes(c["value"]), _gopt(c["domain"]), _gopt(c["expires"]), _gopt(c["path"]),
+            ctor, G.gbytes(c["name"]), G.gbytes(c["value"]), _gopt(c["domain"]), G.goption(c["expires"], G.gz, "Z"), _gopt(c["path"]),
             G.goption(c["max_age"], G.gz, "Z"), G.gbool(c["httponly"]), G.gbool(c["secure"]), _gopt(c["samesite"])))
-    return G.glist(out, "op")
+    return "(%s, %s)" % (G.glist(out, "op"), _gending(case.get("end")))
+
+
+ENDINGS = [("return", 0), ("finish", 0), ("exception", 0), ("redirect", 0), ("redirect", 1)] + \
+          [(k, c) for k in ("httperror", "senderror") for c in (400, 403, 404, 409, 500, 503)]
+
+
+def _gending(e):
+    kind, code = e or ("return", 0)
+    if kind == "return":
+        return "EndReturn"
+    if kind == "finish":
+        return "EndFinish"
+    if kind == "exception":
+        return "EndException"
+    if kind == "redirect":
+        return "(EndRedirect %s)" % G.gbool(bool(code))
+    return "(%s %s)" % ({"httperror": "EndHTTPError", "senderror": "EndSendError"}[kind], G.gn(code))
+
+
+def _status_of(e):
+    kind, code = e or ("return", 0)
+    return {"return": 200, "finish": 200, "exception": 500, "redirect": 301 if code else 302}.get(kind, code)
 
 
 # ----------------------------------------------------------------------------
@@ -154,7 +188,22 @@ def run_impl(case):
                     res.append(Tag("CookieError"))
                 except ValueError:
                     res.append(Tag("ValueError"))
+                except OverflowError:
+                    res.append(Tag("OverflowError"))
+                except OSError:
+                    res.append(Tag("OSError"))
             self.write("x")
+            kind, code = case.get("end") or ("return", 0)
+            if kind == "finish":
+                raise web.Finish()
+            if kind == "httperror":
+                raise web.HTTPError(code)
+            if kind == "exception":
+                raise RuntimeError("boom")
+            if kind == "senderror":
+                self.send_error(code)
+            if kind == "redirect":
+                self.redirect("/elsewhere", permanent=bool(code))
 
     app = web.Application([("/.*", H)], cookie_secret=SECRET)
 
@@ -165,10 +214,12 @@ def run_impl(case):
         s.feed(b"GET / HTTP/1.1\r\nHost: x\r\n\r\n")
         await settle(6)
         first = bytes(s.sent)
-        if not first.startswith(b"HTTP/1.1 200 ") or b"\r\n\r\n" not in first:
+        if not first.startswith(b"HTTP/1.1 ") or b"\r\n\r\n" not in first:
             s.feed(EOF)
             await settle(4)
             return None
+        rec["status"] = int(first[9:12])
+        rec["sent1"] = len(first)
         hs = _set_cookie_lines(first.split(b"\r\n\r\n", 1)[0])
         # the user agent: name=value part of every header, joined by "; "
         nvs = [h.split(";", 1)[0].strip(" \t") for h in hs]
@@ -192,10 +243,10 @@ def run_impl(case):
         web.datetime, web.time = old_dt, old_time
         logging.disable(lvl)
     if hs is None:
-        return [res, Tag("NoResponse")]
+        return [res, 0, Tag("NoResponse")]
     if "cookies" not in rec:
-        return [res, [hs, Tag("SecondRequestRejected")]]
-    return [res, [hs, rec["cookies"]]]
+        return [res, rec["status"], [hs, Tag("SecondRequestRejected")]]
+    return [res, rec["status"], [hs, rec["cookies"]]]
 
 
 # ----------------------------------------------------------------------------
@@ -206,7 +257,7 @@ def _dec_requested(c):
     if c["domain"]:
         out.append(("Domain", c["domain"]))
     if c["expires"]:
-        out.append(("expires", c["expires"]))
+        out.append(("expires", _expires_text(c)))
     if c["httponly"]:
         out.append(("HttpOnly", None))
     if c["max_age"] is not None:
@@ -240,14 +291,16 @@ def _expected(case, o):
 
 def py_check(case, o):
     from tornado import httputil
-    if not (isinstance(o, list) and len(o) == 2 and isinstance(o[0], list)) or isinstance(o[0], Tag):
+    if not (isinstance(o, list) and len(o) == 3 and isinstance(o[0], list)) or isinstance(o[0], Tag):
         return False
     exp = _expected(case, o)
     if exp is None:
         return False
-    if isinstance(o[1], Tag) or isinstance(o[1][1], Tag):
+    if o[1] != _status_of(case.get("end")):
         return False
-    hs, cks = o[1]
+    if isinstance(o[2], Tag) or isinstance(o[2][1], Tag):
+        return False
+    hs, cks = o[2]
     if len(hs) != len(exp):
         return False
     by_name = {c["name"]: c for c in exp}
@@ -336,7 +389,7 @@ def _rand_call(rng, wild=False):
     if kind == "signed" and rng.random() < 0.5:
         value = _text(rng, LEGAL + UNESC + SPECIAL, 0, 6)
     return call(kind, name, value, dom,
-                rng.choice([None, None, 0, 1, 86400, 1000000000, 2 ** 31, 253402300799]),
+                rng.choice([None, None, 0, 1, 86400, 1000000000, 2 ** 31, 253402300799, -1, 253402300800, 10 ** 18]),
                 path,
                 rng.choice([None, None, None, 0, 1, -1, 10, 3600, 2 ** 31, 10 ** 20]),
                 rng.random() < 0.3, rng.random() < 0.3, ss,
@@ -367,6 +420,14 @@ def corpus_cases():
         mk(call(value="1"), call(name="b", value="2"), call(value="\u20ac")),   # a call failing the final header check keeps the earlier setting (moved last)
         mk(call(value="1"), call(value="2", domain="\u0100")), 
         mk(call(value="\u20ac"), call(value="3")),
+        # an unrepresentable expiry raises before the jar is touched (was: half-built cookie "a=v" sent, earlier setting lost)
+        mk(call(value="1", secure=True), call(value="v", expires=253402300800), call(name="b", value="v", expires=10 ** 18, domain="d.e")),
+        mk(call(value="v", expires=2 ** 63), call(value="v", expires=-62135596801), call(name="path", value="v", expires=10 ** 15)),
+        mk(call(name="sid", value="abc"), call(name="p", value="q", max_age=0), end=("httperror", 403)),   # seeded C25_2
+        mk(call(name="sid", value="abc"), end=("exception", 0)),
+        mk(call(name="sid", value="abc"), call("signed", name="t", value="v"), end=("senderror", 409)),
+        mk(call(name="sid", value="abc"), end=("redirect", 0)),
+        mk(call(name="sid", value="abc"), end=("finish", 0)),
     ]
 
 
@@ -393,10 +454,36 @@ def gen_cases(rng, tier):
     out = []
     n_struct, n_wild = (700, 250) if tier == "quick" else (3500, 1500)
     out += _singles()
+    def ending():
+        return rng.choice(ENDINGS) if rng.random() < 0.45 else ("return", 0)
     for _ in range(n_struct):
-        out.append(mk(*[_rand_call(rng) for _ in range(rng.choice([1, 1, 2, 2, 3, 4]))]))
+        out.append(mk(*[_rand_call(rng) for _ in range(rng.choice([1, 1, 2, 2, 3, 4]))], end=ending()))
     for _ in range(n_wild):
-        out.append(mk(*[_rand_call(rng, wild=True) for _ in range(rng.choice([1, 2, 3]))]))
+        out.append(mk(*[_rand_call(rng, wild=True) for _ in range(rng.choice([1, 2, 3]))], end=ending()))
+    # every ending after a fixed multi-cookie scenario (set, overwrite, rejected call, clear, signed)
+    for e in ENDINGS:
+        out.append(mk(call(name="sid", value="old", domain="old.example.com", secure=True),
+                      call(name="sid", value="abc123", domain="example.com", path="/app", httponly=True),
+                      call(name="pref", value='a;b,"c"=\xe9', max_age=0, samesite="Lax"),
+                      call(name="bad name", value="x"), call("clear", name="gone"), call("signed", name="tok", value="v"),
+                      end=e))
+        out.append(mk(end=e))
+    # expiry timestamps: epoch edges, leap days, century rules, year 9999/10000, random instants
+    stamps = [1, 59, 60, 3599, 3600, 86399, 86400, 68169599, 68169600, 951782399, 951782400, 951868799, 951868800,
+              4102444799, 4102444800, 4107455999, 4107456000, 4107542400, 13569465600, 32503680000, 253402300799,
+              2 ** 31 - 1, 2 ** 31, 2 ** 32,
+              253402300800, 10 ** 12, 10 ** 15, 67768036191676799, 67768036191676800, 10 ** 18, 2 ** 63 - 1, 2 ** 63, 10 ** 30,
+              -1, -86400, -86401, -2208988800, -62135596800, -62135596801, -10 ** 15, -67768040609740800,
+              -67768040609740801, -2 ** 63, -2 ** 63 - 1, -10 ** 30]
+    if tier == "thorough":
+        for y in range(1970, 2112):
+            for mo, d in ((2, 28), (3, 1), (12, 31), (1, 1)):
+                t0 = calendar.timegm((y, mo, d, 0, 0, 0))
+                stamps += [t0 - 1, t0, t0 + 86399]
+    stamps += [rng.randrange(1, 2 ** 33) for _ in range(60 if tier == "quick" else 600)]
+    stamps += [rng.randrange(-62135596800, 253402300800) for _ in range(40 if tier == "quick" else 600)]
+    for i in range(0, len(stamps), 4):
+        out.append(mk(*[call(name="t%d" % k, value="v", expires=t) for k, t in enumerate(stamps[i:i + 4])]))
     # boundary numbers
     for m in [0, 1, -1, 9, 10, 99, 100, 2 ** 31 - 1, 2 ** 63, -2 ** 63, 10 ** 30]:
         out.append(mk(call(value="v", max_age=m)))
@@ -414,8 +501,11 @@ def gen_cases(rng, tier):
                 call(name="a", value="bad value"), call("clear", name="a"), call(name="b", value="4", domain="x;y"),
                 call(name="A", value="5")]
         for n in (1, 2, 3):
-            for seq in itertools.product(menu, repeat=n):
-                out.append(mk(*seq))
+            for k, seq in enumerate(itertools.product(menu, repeat=n)):
+                out.append(mk(*seq, end=ENDINGS[k % len(ENDINGS)] if n == 3 else None))
+        for e in ENDINGS:               # all 2-call sequences x every ending
+            for seq in itertools.product(menu, repeat=2):
+                out.append(mk(*seq, end=e))
     return out
 
 
@@ -435,7 +525,8 @@ def classify(case, o):
     if isinstance(o, list) and isinstance(o[0], list):
         for r in o[0]:
             yield "result=" + str(r)
-        yield "response=" + ("none" if isinstance(o[1], Tag) else "%d-set-cookie" % min(len(o[1][0]), 3))
+        yield "response=" + ("none" if isinstance(o[2], Tag) else "%d-set-cookie" % min(len(o[2][0]), 3))
+        yield "end=" + (case.get("end") or ("return", 0))[0]
         names = [op["name"] for op, r in zip(case["ops"], o[0]) if r == "Ok"]
         if len(names) != len(set(names)):
             yield "same-name-twice"
@@ -453,11 +544,11 @@ def signature(case, o):
     try:
         res = o[0]
         ok = [op for op, r in zip(case["ops"], res) if r == "Ok"]
-        if isinstance(o[1], Tag) and str(o[1]) == "NoResponse" and ok:
+        if isinstance(o[2], Tag) and str(o[2]) == "NoResponse" and ok:
             return "non-latin1-accepted"
         # a call that returned normally, is not superseded by a later successful call of the
         # same name, yet has no header because a later call of that name raised
-        names = [h.split(";", 1)[0].split("=", 1)[0].strip(" \t") for h in o[1][0]]
+        names = [h.split(";", 1)[0].split("=", 1)[0].strip(" \t") for h in o[2][0]]
         ops = case["ops"]
         for i, (op, r) in enumerate(zip(ops, res)):
             if r != "Ok" or op["name"] in names:
@@ -465,6 +556,8 @@ def signature(case, o):
             later = [(q, rq) for q, rq in list(zip(ops, res))[i + 1:] if q["name"] == op["name"]]
             if later and all(rq != "Ok" for _, rq in later):
                 return "failed-reset-drops-earlier-setting"
+        if ok and not o[2][0] and (case.get("end") or ["return"])[0] not in ("return", "finish"):
+            return "cookies-lost-on-error-response"
         if any(op["kind"] != "clear" and op["max_age"] == 0 for op in ok):
             return "falsy-max-age-dropped"
     except Exception:
@@ -473,6 +566,14 @@ def signature(case, o):
 
 
 def shrink(case):
+    for cand in _shrink_ops(case):
+        cand["end"] = case.get("end") or ["return", 0]
+        yield cand
+    if (case.get("end") or ["return", 0])[0] != "return":
+        yield {"ops": case["ops"], "end": ["return", 0]}
+
+
+def _shrink_ops(case):
     ops = case["ops"]
     if len(ops) > 1:
         for i in range(len(ops)):
